@@ -969,5 +969,5 @@ func c17UnquoteDecoded(c *Ctx) {
 		}
 		c.Check(rule, fmt.Sprintf("Bunquote|append#%d|from-the-decoded-rune", n), fromRune && !fromInput, ci.Pos(), fmt.Sprintf("derived from the decoded rune: %v; copied from the input: %v", fromRune, fromInput))
 	}
-	c.Floor(rule, 2)
+	c.Floor(rule, 1)
 }
